@@ -590,7 +590,7 @@ def canonTaskErr : TaskErr → TaskErr
   | .notLeader n lost => .notLeader n lost
   | .plain s => .plain s
   | .temporary s => .temporary s
-  | .inProgress s => .inProgress (inProgressText s)   -- the text is re-wrapped (finding)
+  | .inProgress s => .inProgress (inProgressText s)   -- kind kept, text re-wrapped (Error())
   | .other _ text => .other nmErrorString text
 
 def canonTaskResult : TaskResult → TaskResult
@@ -747,7 +747,7 @@ inductive ValErr
   | invalid   -- "raft: invalid value file …" (no '-', syntax error or out of range)
   deriving DecidableEq, Repr
 
-/-- `strconv.ParseInt(s, 10, 64)` followed by the `uint64(...)` conversion. -/
+/-- `strconv.ParseInt(s, 10, 64)` followed by the `uint64(...)` conversion (pre-fix reader). -/
 def parseInt64 (cs : List Char) : Except ValErr UInt64 :=
   match cs with
   | [] => .error .invalid
@@ -795,13 +795,14 @@ def parseValueWith (p : List Char → Except ValErr UInt64) (cs : List Char) :
       | .error e => .error e
       | .ok v2 => .ok (v1, v2)
 
-/-- What `openValue` does with the file name (extension already trimmed) TODAY:
-signed parse, then conversion to uint64. -/
+/-- What `openValue` does with the file name (extension already trimmed):
+`strconv.ParseUint` on both parts (no sign accepted, range 0 … 2^64-1). -/
 def parseValue (s : String) : Except ValErr (UInt64 × UInt64) :=
-  parseValueWith parseInt64 s.toList
-
-/-- The repaired reader: unsigned parse (`strconv.ParseUint`). -/
-def parseValueFixed (s : String) : Except ValErr (UInt64 × UInt64) :=
   parseValueWith parseUint64 s.toList
+
+/-- Historical note — the reader BEFORE the repair (`strconv.ParseInt`, then conversion to
+uint64): it could not read back values ≥ 2^63. Not used by the current code. -/
+def parseValueSigned (s : String) : Except ValErr (UInt64 × UInt64) :=
+  parseValueWith parseInt64 s.toList
 
 end RaftVerif.Codec
